@@ -29,6 +29,7 @@
 #include "utils.hpp"
 #include "host_pool_interface.hpp"
 #include "generator_provider.hpp"
+#include "verif_hooks.hpp"
 
 namespace pops {
 
@@ -148,6 +149,14 @@ public:
                     weather_coefficient_min,
                     weather_coefficient_max};
                 stored_weather_coefficient(i, j) = distribution(generator.weather());
+#ifdef POPS_CORE_VERIF
+                POPS_VERIF_EVENT(
+                    "weather",
+                    generator.weather(),
+                    static_cast<double>(i),
+                    static_cast<double>(j),
+                    static_cast<double>(stored_weather_coefficient(i, j)));
+#endif
             }
         }
         current_weather_coefficient = &stored_weather_coefficient;
